@@ -1,5 +1,6 @@
 // objsim: object-history simulator (DESIGN.md 3.2).  One binary per build flavour.
 #include "gen.hpp"
+#include "tsanrt.hpp"
 #include <sys/wait.h>
 #include <sys/mman.h>
 #include <unistd.h>
@@ -11,7 +12,7 @@
 #define FLAVOUR "plain"
 #endif
 
-enum Mode { M_SINGLE, M_XHOST, M_DUAL, M_C14, M_GRID };
+enum Mode { M_SINGLE, M_XHOST, M_DUAL, M_C14, M_GRID, M_CT };
 struct PropDef { const char *id; Mode mode; uint32_t checks; uint64_t quick_runs, thorough_runs; };
 static const PropDef PROPS[] = {
     {"C03", M_SINGLE, CK_RTRIP | CK_MSCHED | CK_OUT, 60000, 3000000},
@@ -27,6 +28,7 @@ static const PropDef PROPS[] = {
     {"C15", M_SINGLE, CK_HEAP | CK_RET, 40000, 2000000},
     {"C16", M_SINGLE, CK_FAILINIT | CK_RET | CK_HEAP, 20000, 500000},
     {"C17", M_SINGLE, CK_WIPE, 40000, 2000000},
+    {"C08", M_CT, 0, 6000, 300000},
     {"DIG", M_SINGLE, 0, 4000, 20000},      // digest workload for cfgsim (C12): API-visible results only
 };
 static const PropDef *find_prop(const std::string &id) { for (auto &p : PROPS) if (id == p.id) return &p; return nullptr; }
@@ -67,6 +69,7 @@ static Plan make_plan(const PropDef &pd, uint64_t seed, uint64_t run) {
     if (id == "C05") return gen_stream(rng);
     if (id == "C06") return gen_xhost(rng, true);
     if (id == "C07") return gen_parallel(rng, run);
+    if (id == "C08") return gen_mixture(rng, run);
     if (id == "C09") return gen_buffers(rng);
     if (id == "C10") return gen_keylen(rng, run);
     if (id == "C11") return gen_mixture(rng, run);
@@ -112,6 +115,36 @@ static int first_obs_diff(const Plan &p, const RunResult &a, const RunResult &b,
         if (snap && x.snap != y.snap) { *what = "key schedule contents differ"; return (int)i; }
     }
     return -1;
+}
+
+// ---- ctsim (C08): paired-replay trace equality
+struct CtEvent { int op; uint8_t kind; uint64_t val; };
+static uint64_t g_ct_hash; static uint64_t g_ct_events; static bool g_ct_record; static std::vector<CtEvent> g_ct_vec;
+extern char __executable_start;
+static void ct_mem(void *addr, unsigned size, int wr, void *) {
+    if (!g_trace_gate) return;
+    uint64_t v = (uint64_t)(uintptr_t)addr * 4 + (wr ? 2 : 0); v = v * 64 + (size & 63);
+    g_ct_hash = mix64(g_ct_hash ^ v); ++g_ct_events;
+    if (g_ct_record) g_ct_vec.push_back({g_trace_op, (uint8_t)(wr ? 2 : 1), (uint64_t)(uintptr_t)addr << 8 | (size & 255)});
+}
+static void ct_pc(void *pc) {
+    if (!g_trace_gate) return;
+    g_ct_hash = mix64(g_ct_hash ^ ((uint64_t)(uintptr_t)pc * 0x9E3779B97F4A7C15ULL)); ++g_ct_events;
+    if (g_ct_record) g_ct_vec.push_back({g_trace_op, 3, (uint64_t)(uintptr_t)pc});
+}
+static Plan with_secrets(const Plan &p, int variant, uint64_t seed, uint64_t run) {
+    if (variant == 0) return p;
+    Plan q = p; Rng r(seed, run, variant == 3 ? "secret3" : "secret4");
+    for (auto &o : q.ops) {
+        if (variant == 1) { std::fill(o.a.begin(), o.a.end(), 0); std::fill(o.b.begin(), o.b.end(), 0); }
+        else if (variant == 2) { std::fill(o.a.begin(), o.a.end(), 0xFF); std::fill(o.b.begin(), o.b.end(), 0xFF); }
+        else { r.fill(o.a.data(), o.a.size()); r.fill(o.b.data(), o.b.size()); }
+    }
+    return q;
+}
+static std::string ct_event_str(const CtEvent &e) {
+    if (e.kind == 3) return strf("basic block at pc+0x%lx", (unsigned long)(e.val - (uintptr_t)&__executable_start));
+    return strf("%s of %u byte(s) at %s", e.kind == 2 ? "write" : "read", (unsigned)(e.val & 255), classify_addr((void *)(uintptr_t)(e.val >> 8)).c_str());
 }
 
 static Outcome evaluate(const PropDef &pd, const Plan &plan, uint64_t seed, uint64_t run, bool trace) {
@@ -163,6 +196,33 @@ static Outcome evaluate(const PropDef &pd, const Plan &plan, uint64_t seed, uint
         O.digest = obs_digest(plan, a, true);
         break;
     }
+    case M_CT: {
+        g_tsan.mem = ct_mem; g_tsan.pc = ct_pc;
+        c.cpu_override = (int)(mix64(seed ^ run * 77) % 3);
+        uint64_t h0 = 0, ev0 = 0; static const char *vn[] = {"secrets as generated", "all secret bytes 00", "all secret bytes FF", "other random secrets", "third random secrets"};
+        for (int v = 0; v < 5; ++v) {
+            Plan q = with_secrets(plan, v, seed, run);
+            g_ct_hash = 0x51; g_ct_events = 0; g_ct_record = false;
+            RunResult r = execute(q, c); absorb(r, vn[v]);
+            if (!r.viol.empty()) { O.viol.clear(); break; }      // crashes etc. are other properties' business
+            if (v == 0) { h0 = g_ct_hash; ev0 = g_ct_events; O.digest = h0; continue; }
+            if (g_ct_hash != h0 || g_ct_events != ev0) {
+                // record both executions in full and find the first event that differs
+                g_ct_record = true; g_ct_vec.clear(); execute(plan, c); std::vector<CtEvent> A = g_ct_vec;
+                g_ct_vec.clear(); execute(q, c); std::vector<CtEvent> Bv = g_ct_vec; g_ct_record = false;
+                size_t i = 0; while (i < A.size() && i < Bv.size() && A[i].kind == Bv[i].kind && A[i].val == Bv[i].val) ++i;
+                Violation vv; vv.inv = "trace-divergence"; vv.op = i < A.size() ? A[i].op : (i < Bv.size() ? Bv[i].op : -1);
+                if (vv.op < 0 || vv.op >= (int)plan.ops.size()) vv.op = 0;
+                vv.msg = strf("%s: with %s the recorded branch/address trace departs from the trace with %s at event %zu of %zu/%zu: %s  vs  %s",
+                              op_brief(plan, plan.ops[vv.op]).c_str(), vn[v], vn[0], i, A.size(), Bv.size(), i < A.size() ? ct_event_str(A[i]).c_str() : "(end of trace)", i < Bv.size() ? ct_event_str(Bv[i]).c_str() : "(end of trace)");
+                O.viol.push_back(vv); if (trace) O.trace.push_back("    !! " + vv.inv + ": " + vv.msg);
+                break;
+            }
+        }
+        O.lib_calls = O.lib_calls; g_tsan.mem = nullptr; g_tsan.pc = nullptr;
+        { static int pid2 = g_probes.reg("ct.events"); g_probes.counts[pid2] += ev0; }
+        break;
+    }
     case M_C14: {
         RunResult a = execute(plan, c); absorb(a, "with injected invalid calls");
         if (!a.viol.empty()) return O;
@@ -180,6 +240,44 @@ static Outcome evaluate(const PropDef &pd, const Plan &plan, uint64_t seed, uint
     }
     }
     return O;
+}
+
+// Evaluations made by the parent process (determinism gate, final trace; minimisation trials are
+// forked anyway) run in a fresh fork of the parent, which itself never executes library code:
+// hidden state in the library (e.g. a cached CPU probe) cannot make one evaluation depend on an
+// earlier one, and cannot turn a library defect into "harness nondeterminism".
+static Outcome evaluate_isolated(const PropDef &pd, const Plan &plan, uint64_t seed, uint64_t run, bool trace) {
+    int fd[2]; if (pipe(fd) != 0) return Outcome();
+    fflush(stdout); fflush(stderr);
+    pid_t pid = fork();
+    if (pid == 0) {
+        close(fd[0]);
+        for (auto &c : g_probes.counts) c = 0;
+        g_cover = Coverage(); g_heap.n_alloc = g_heap.n_free = g_heap.n_failed = 0; g_cpu.n_traps = 0;
+        Outcome o = evaluate(pd, plan, seed, run, trace); FILE *f = fdopen(fd[1], "w");
+        fprintf(f, "F %llx %llx %llu %llu %llu %llu\n", (unsigned long long)o.fingerprint, (unsigned long long)o.digest, (unsigned long long)o.lib_calls, (unsigned long long)o.ops, (unsigned long long)o.skipped, (unsigned long long)o.executions);
+        for (auto &v : o.viol) { std::string m = v.msg; for (char &c : m) if (c == '\n' || c == '\t') c = ' '; fprintf(f, "V %s\t%d\t%s\n", v.inv.c_str(), v.op, m.c_str()); }
+        for (auto &l : o.trace) { std::string m = l; for (char &c : m) if (c == '\n') c = ' '; fprintf(f, "T %s\n", m.c_str()); }
+        for (uint64_t h : g_cover.nontrivial) fprintf(f, "H %llx\n", (unsigned long long)h);
+        for (size_t i = 0; i < g_probes.names.size(); ++i) fprintf(f, "P %s %llu\n", g_probes.names[i].c_str(), (unsigned long long)g_probes.counts[i]);
+        fprintf(f, "S %llu %llu %llu %llu %llu\n", (unsigned long long)g_heap.n_alloc, (unsigned long long)g_heap.n_free, (unsigned long long)g_heap.n_failed, (unsigned long long)g_cpu.n_traps, 0ULL);
+        fclose(f); _exit(0);
+    }
+    close(fd[1]); Outcome o; FILE *f = fdopen(fd[0], "r"); char *line = nullptr; size_t cap = 0;
+    while (getline(&line, &cap, f) > 0) {
+        std::string ln(line); if (!ln.empty() && ln.back() == '\n') ln.pop_back();
+        if (ln.size() < 2) continue;
+        if (ln[0] == 'F') { unsigned long long a, b, c, d, e, g; if (sscanf(ln.c_str(), "F %llx %llx %llu %llu %llu %llu", &a, &b, &c, &d, &e, &g) == 6) { o.fingerprint = a; o.digest = b; o.lib_calls = c; o.ops = d; o.skipped = e; o.executions = g; } }
+        else if (ln[0] == 'V') { size_t t1 = ln.find('\t'), t2 = ln.find('\t', t1 + 1); Violation v; v.inv = ln.substr(2, t1 - 2); v.op = atoi(ln.substr(t1 + 1, t2 - t1 - 1).c_str()); v.msg = ln.substr(t2 + 1); o.viol.push_back(v); }
+        else if (ln[0] == 'T') o.trace.push_back(ln.substr(2));
+        else if (ln[0] == 'H') g_cover.add(strtoull(ln.c_str() + 2, 0, 16), true);
+        else if (ln[0] == 'P') { char k[128]; unsigned long long v; if (sscanf(ln.c_str(), "P %127s %llu", k, &v) == 2) g_probes.hit(k, v); }
+        else if (ln[0] == 'S') { unsigned long long a, b, c, d, e; if (sscanf(ln.c_str(), "S %llu %llu %llu %llu %llu", &a, &b, &c, &d, &e) == 5) { g_heap.n_alloc += a; g_heap.n_free += b; g_heap.n_failed += c; g_cpu.n_traps += d; } }
+    }
+    free(line); fclose(f); int st = 0; waitpid(pid, &st, 0);
+    if (WIFEXITED(st) && WEXITSTATUS(st) == 77) { Violation v; v.inv = "sanitizer-report"; v.msg = "the sanitizer build aborted with a report"; o.viol.push_back(v); }
+    else if (!(WIFEXITED(st) && WEXITSTATUS(st) == 0)) { Violation v; v.inv = "worker-death"; v.msg = strf("the process died (status 0x%x)", st); o.viol.push_back(v); }
+    return o;
 }
 
 // ------------------------------------------------------------------------- trigger signature
@@ -329,7 +427,8 @@ static void worker_main(const PropDef &pd, uint64_t seed, uint64_t first, uint64
         if (i < resume_from) continue;
         g_shared->cur_run[w] = i;
         Plan p = make_plan(pd, seed, i);
-        Outcome o = evaluate(pd, p, seed, i, false);
+        // C13: a real process only ever sees one CPU, so every simulated CPU model gets its own process
+        Outcome o = pd.mode == M_GRID ? evaluate_isolated(pd, p, seed, i, false) : evaluate(pd, p, seed, i, false);
         ++W.runs; W.lib_calls += o.lib_calls; W.ops += o.ops; W.skipped += o.skipped; W.executions += o.executions;
         if (want_fp) fprintf(f, "F %llu %016llx\n", (unsigned long long)i, (unsigned long long)o.fingerprint);
         if (want_digest) fprintf(f, "D %llu %016llx\n", (unsigned long long)i, (unsigned long long)o.digest);
@@ -374,6 +473,7 @@ static int do_replay(const std::string &path, bool quiet) {
     return 1;
 }
 
+static std::string g_replaydir = "/verif/replays";
 int main(int argc, char **argv) {
     std::string prop, out, replay; uint64_t seed = 1, runs = 0, first = 0; int nw = 16; bool want_fp = false, want_digest = false, quiet = false; std::string tier = "quick"; std::set<std::string> known;
     for (int i = 1; i < argc; ++i) {
@@ -381,7 +481,7 @@ int main(int argc, char **argv) {
         auto nxt = [&]() { return i + 1 < argc ? std::string(argv[++i]) : std::string(); };
         if (a == "--prop") prop = nxt(); else if (a == "--seed") seed = strtoull(nxt().c_str(), 0, 10); else if (a == "--runs") runs = strtoull(nxt().c_str(), 0, 10);
         else if (a == "--first") first = strtoull(nxt().c_str(), 0, 10);
-        else if (a == "--workers") nw = atoi(nxt().c_str()); else if (a == "--out") out = nxt(); else if (a == "--replay") replay = nxt(); else if (a == "--outdir") g_outdir = nxt();
+        else if (a == "--workers") nw = atoi(nxt().c_str()); else if (a == "--out") out = nxt(); else if (a == "--replay") replay = nxt(); else if (a == "--replaydir") g_replaydir = nxt(); else if (a == "--outdir") g_outdir = nxt();
         else if (a == "--fingerprints") want_fp = true; else if (a == "--digests") want_digest = true; else if (a == "--tier") tier = nxt(); else if (a == "--quiet") quiet = true;
         else if (a == "--known") { std::string k = nxt(); size_t pos = 0; while (pos <= k.size()) { size_t c = k.find(',', pos); if (c == std::string::npos) c = k.size(); if (c > pos) known.insert(k.substr(pos, c - pos)); pos = c + 1; } }
     }
@@ -469,7 +569,7 @@ int main(int argc, char **argv) {
         Plan p = make_plan(*pd, seed, rv.run);
         if (rv.inv != "sanitizer-report" && rv.inv != "worker-death") {
             // determinism gate 1: the same seed twice, same fingerprint, same violation
-            Outcome a = evaluate(*pd, p, seed, rv.run, false), b = evaluate(*pd, p, seed, rv.run, false);
+            Outcome a = evaluate_isolated(*pd, p, seed, rv.run, false), b = evaluate_isolated(*pd, p, seed, rv.run, false);
             bool same = a.fingerprint == b.fingerprint && !a.viol.empty() && !b.viol.empty() && a.viol[0].inv == rv.inv && b.viol[0].inv == rv.inv;
             if (!same) { fprintf(stderr, "objsim: run %llu does not repeat (fingerprints %016llx / %016llx): harness nondeterminism\n", (unsigned long long)rv.run, (unsigned long long)a.fingerprint, (unsigned long long)b.fingerprint); ++harness_nondeterminism; continue; }
         }
@@ -480,13 +580,13 @@ int main(int argc, char **argv) {
         Final F; F.raw = rv; F.ops_before = before; F.ops_after = m.ops.size(); F.trials = g_trials; F.reproduced = false;
         Violation v; v.inv = rv.inv; v.op = rv.op; v.msg = rv.msg;
         if (rv.inv != "sanitizer-report" && rv.inv != "worker-death") {
-            Outcome o = evaluate(*pd, m, seed, rv.run, true);
+            Outcome o = evaluate_isolated(*pd, m, seed, rv.run, true);
             for (auto &x : o.viol) if (x.inv == rv.inv) { v = x; break; }
             F.trace = o.trace;
         }
         v.sig = classify(*pd, m, v); F.sig = v.sig; F.msg = v.msg;
-        if (system(("mkdir -p /verif/replays")) != 0) {}
-        F.replay = strf("/verif/replays/%s-%s-%llu-%llu.replay", pd->id, FLAVOUR, (unsigned long long)seed, (unsigned long long)rv.run);
+        if (system(("mkdir -p " + g_replaydir).c_str()) != 0) {}
+        F.replay = strf("%s/%s-%s-%llu-%llu.replay", g_replaydir.c_str(), pd->id, FLAVOUR, (unsigned long long)seed, (unsigned long long)rv.run);
         write_replay(*pd, seed, rv.run, m, v, F.replay);
         // determinism gate 2: the minimised file must fail the same way in a fresh process
         {
